@@ -437,6 +437,36 @@ func (w *World) reflectGuards(P string) {
 					if gc, ok := a.V.(*ssa.Call); ok && a.Pol && gc.Call.IsInvoke() && gc.Call.Method.Name() == "AssignableTo" {
 						assignable = true
 					}
+					// the test made by a helper of the package that hands back an error: reached only when that error
+					// is nil, and the helper returns a nil error only under a successful AssignableTo test
+					if bo, ok := a.V.(*ssa.BinOp); ok && isNilConst(bo.Y) && ((bo.Op == token.NEQ && !a.Pol) || (bo.Op == token.EQL && a.Pol)) {
+						if ex, ok := bo.X.(*ssa.Extract); ok {
+							if hc, ok := ex.Tuple.(*ssa.Call); ok {
+								if g := staticCallee(hc); g != nil && fnPkgKey(g) == "exec" && len(g.Blocks) > 0 {
+									all, n := true, 0
+									allInstrs(g, func(in2 ssa.Instruction) {
+										ret, isRet := in2.(*ssa.Return)
+										if !isRet || len(ret.Results) == 0 || ex.Index >= len(ret.Results) || !isNilConst(ret.Results[ex.Index]) {
+											return
+										}
+										n++
+										tested := false
+										for _, a2 := range guardAtoms(ret.Block()) {
+											if gc2, ok := a2.V.(*ssa.Call); ok && a2.Pol && gc2.Call.IsInvoke() && gc2.Call.Method.Name() == "AssignableTo" {
+												tested = true
+											}
+										}
+										if !tested {
+											all = false
+										}
+									})
+									if all && n > 0 {
+										assignable = true
+									}
+								}
+							}
+						}
+					}
 				}
 				// Set on a fresh reflect.New(...).Elem() needs no guard
 				fresh := false
@@ -449,6 +479,36 @@ func (w *World) reflectGuards(P string) {
 					byConstruction++
 					w.check(P, "R15.1", "Set on a freshly allocated value in "+fn.Name(), c.Pos(), true, "reflect.New(T).Elem() is settable and of type T by construction")
 				} else {
+					if p, isParam := recv.(*ssa.Parameter); isParam && !(canSet && assignable) {
+						// a helper that is handed the value to set: the guards hold at every call
+						idx := -1
+						for i, x := range fn.Params {
+							if x == p {
+								idx = i
+							}
+						}
+						sites := w.callersOf(fn)
+						all := idx >= 0 && len(sites) > 0
+						for _, site := range sites {
+							if idx < 0 || idx >= len(site.Call.Args) {
+								all = false
+								continue
+							}
+							cs := guardedByReflect(site.Block(), site.Call.Args[idx], "CanSet", true)
+							as := false
+							for _, a := range guardAtoms(site.Block()) {
+								if gc, ok := a.V.(*ssa.Call); ok && gc.Call.IsInvoke() && gc.Call.Method.Name() == "AssignableTo" && a.Pol {
+									as = true
+								}
+							}
+							if !cs || !as {
+								all = false
+							}
+						}
+						if all {
+							canSet, assignable = true, true
+						}
+					}
 					w.check(P, "R15.1", "Set in "+fn.Name(), c.Pos(), canSet && assignable, fmt.Sprintf("guarded by CanSet() on the same value: %v; by an AssignableTo test: %v", canSet, assignable))
 				}
 			}
@@ -1490,11 +1550,22 @@ func checkC19(w *World) {
 			if funcFullName(staticCallee(c)) == "reflect.Append" {
 				// reached from an ascending loop over the node-set in the caller
 				asc := false
+				// the function that appends, or a caller of it (the append may sit one or two helpers below the loop)
+				chain := map[*ssa.Function]bool{g: true}
+				for round := 0; round < 2; round++ {
+					for h := range closure {
+						allInstrs(h, func(in2 ssa.Instruction) {
+							if c2, ok := in2.(*ssa.Call); ok && chain[staticCallee(c2)] && !loopBlocks(h)[c2.Block()] {
+								chain[h] = true
+							}
+						})
+					}
+				}
 				for h := range closure {
 					hl := loopBlocks(h)
 					allInstrs(h, func(in2 ssa.Instruction) {
 						c2, ok := in2.(*ssa.Call)
-						if !ok || staticCallee(c2) != g || !hl[c2.Block()] {
+						if !ok || !chain[staticCallee(c2)] || !hl[c2.Block()] {
 							return
 						}
 						// the loop ranges over a NodeSet with an ascending counter
